@@ -303,11 +303,29 @@ func VerifC13Update() {
 	v, _ := vhVault()
 	ctx := context.Background()
 	p := vhStoredX("", true, true)
+	if api.Choose("created_with_attempt", 2) == 1 {
+		// the action was already attempted when the plan was stored (a plan cloned with its state, or a recovered one)
+		a := p.Blocks[0].Sequences[0].Actions[0]
+		a.Attempts = []*workflow.Attempt{{Start: time.Unix(0, 5000), End: time.Unix(0, 6000), Resp: kit.Resp{N: 41}}}
+	}
 	api.Assert(v.Create(ctx, p) == nil, "Create of a well-formed plan succeeds")
 	nm := &vhNamer{n: 1000}
 	n := 1 + api.Choose("updates", api.Bound("max_updates", 1, 2))
 	for i := 0; i < n; i++ {
-		switch api.Choose("update_kind", 5) {
+		switch api.Choose("update_kind", 6) {
+		case 5:
+			// the engine resets an action before running it again (continuous checks, recovery): new state, no attempts
+			a := p.Blocks[0].Sequences[0].Actions[0]
+			if len(a.Attempts) > 0 {
+				api.Reach("action reset after an attempt was stored")
+			}
+			nm.fresh(a.State)
+			a.Attempts = nil
+			if api.Choose("reset_empty_slice", 2) == 1 {
+				a.Attempts = []*workflow.Attempt{}
+			}
+			api.Assert(v.UpdateAction(ctx, a) == nil, "UpdateAction succeeds")
+			api.Reach("action updated")
 		case 0:
 			nm.fresh(p.State)
 			p.Reason = workflow.FailureReason(api.NondetInt(nm.name("reason")))
